@@ -24,7 +24,7 @@ import (
 
 type boardStats struct {
 	FollowerReads, ConcurrentReads, ContentsCompared                                                int
-	SameHandleHistories, SizeTargetsHit, HugeSends                                                  int
+	SameHandleHistories, SizeTargetsHit, HugeSends, OddLines                                                  int
 	Ops, Histories, Sends, Reads, MaxWriters, DistinctSizes, ProcessHistories, DefaultLockHistories int
 	OutcomeHist                                                                                     map[string]int
 	Monitors                                                                                        []string
@@ -700,6 +700,139 @@ func runBoardDiff(outDir string, seed int64, tier string) {
 					}
 				}
 			}()
+		}
+		// lines that are no messages: (a) a writer PROCESS that dies in the middle of an append leaves a tail without a newline
+		// (a separate handle writes the first half of a line, as the kernel does when the process is killed or the disk is full);
+		// (b) a complete line that does not decode (whoever may write to the board file may write anything); (c) a line that
+		// decodes but spells out only some fields. Afterwards: every message SENT gets the offset of its position, every sent
+		// message is read back as sent (no field carried over from the line before), and the board stays readable for everybody.
+		if h%5 == 1 {
+			for _, kind := range []string{"torn-tail", "garbage-line", "sparse-line"} {
+				func() {
+					path6 := filepath.Join(dir, "odd-"+kind+".txt")
+					lock6 := filepath.Join(dir, "odd.lock")
+					os.Remove(path6)
+					w, err := file_storage.NewFileStorage(path6, lock6)
+					if err != nil {
+						return
+					}
+					defer w.Close()
+					rd, err := file_storage.NewFileStorage(path6, lock6)
+					if err != nil {
+						return
+					}
+					defer rd.Close()
+					mk := func(k int) storage.Message {
+						return storage.Message{DkgRoundID: fmt.Sprintf("odd-%d", k), Event: fmt.Sprintf("o%d-%d", h, k), Data: []byte(fmt.Sprintf("data-%d", k)), Signature: []byte(fmt.Sprintf("sig-%d", k)), SenderAddr: fmt.Sprintf("s%d", k), RecipientAddr: fmt.Sprintf("r%d", k)}
+					}
+					var sent []storage.Message
+					send := func(k int) bool {
+						m := mk(k)
+						ms := []storage.Message{m}
+						if err := w.Send(ms...); err != nil {
+							st.Monitors = append(st.Monitors, fmt.Sprintf("C16 send_failed: odd-line history %d (%s): %v", h, kind, err))
+							return false
+						}
+						sent = append(sent, ms[0])
+						return true
+					}
+					if !send(0) || !send(1) {
+						return
+					}
+					raw, err := os.OpenFile(path6, os.O_APPEND|os.O_WRONLY, 0644)
+					if err != nil {
+						return
+					}
+					switch kind {
+					case "torn-tail":
+						half, _ := json.Marshal(mk(99))
+						raw.Write(half[:len(half)/2])
+					case "garbage-line":
+						raw.Write([]byte("\x00\x01 not a message {\n"))
+					case "sparse-line":
+						raw.Write([]byte(`{"id":"sparse","offset":2,"event":"sparse-event"}` + "\n"))
+					}
+					raw.Close()
+					st.OddLines++
+					if !send(2) || !send(3) {
+						return
+					}
+					es, err := readBoard(path6)
+					_ = es
+					got, gerr := rd.GetMessages(0)
+					if gerr != nil {
+						st.Monitors = append(st.Monitors, fmt.Sprintf("C18 board_stays_readable: odd-line history %d (%s between two sends): GetMessages(0) fails for every reader from now on (%s): every node's Poll loop ends on it, again after every restart", h, kind, truncate(gerr.Error(), 120)))
+						return
+					}
+					// the lines of the file, as positions
+					bz, _ := os.ReadFile(path6)
+					lines := strings.Split(strings.TrimSuffix(string(bz), "\n"), "\n")
+					for _, m := range sent {
+						pos := -1
+						for i, l := range lines {
+							var lm storage.Message
+							if json.Unmarshal([]byte(l), &lm) == nil && lm.ID == m.ID && lm.Event == m.Event {
+								pos = i
+							}
+						}
+						if pos < 0 {
+							st.Monitors = append(st.Monitors, fmt.Sprintf("C16 exactly_once: odd-line history %d (%s): the message %s sent after the odd line is on no line of its own (glued to the line before it?)", h, kind, m.Event))
+							return
+						}
+						if uint64(pos) != m.Offset {
+							st.Monitors = append(st.Monitors, fmt.Sprintf("C16 offset_eq_position: odd-line history %d (%s): the message %s was given offset %d and stands at position %d", h, kind, m.Event, m.Offset, pos))
+							return
+						}
+						found := false
+						for _, g := range got {
+							if g.ID == m.ID {
+								found = true
+								if g.Event != m.Event || string(g.Data) != string(m.Data) || string(g.Signature) != string(m.Signature) || g.SenderAddr != m.SenderAddr || g.RecipientAddr != m.RecipientAddr || g.DkgRoundID != m.DkgRoundID {
+									st.Monitors = append(st.Monitors, fmt.Sprintf("C16 read_suffix: odd-line history %d (%s): the message %s comes back different from what was sent", h, kind, m.Event))
+									return
+								}
+							}
+						}
+						if !found {
+							st.Monitors = append(st.Monitors, fmt.Sprintf("C16 read_suffix: odd-line history %d (%s): GetMessages(0) does not return the sent message %s", h, kind, m.Event))
+							return
+						}
+					}
+					// nothing that was not sent borrows the fields of the line before it
+					for _, g := range got {
+						if g.ID == "sparse" && (len(g.Data) > 0 || len(g.Signature) > 0 || g.SenderAddr != "" || g.DkgRoundID != "") {
+							st.Monitors = append(st.Monitors, fmt.Sprintf("C18 line_is_its_own: odd-line history %d: a line that spells out id, offset and event only is handed to the node with data %q, signature %q, sender %q, round %q - the fields of the line BEFORE it (one message variable is decoded into for every line): a signed message is shown again under another event by a line that does not even carry it", h, g.Data, g.Signature, g.SenderAddr, g.DkgRoundID))
+							return
+						}
+					}
+					// reads from every offset: the sent messages from that position on
+					for off := 0; off <= len(lines); off++ {
+						part, err := rd.GetMessages(uint64(off))
+						if err != nil {
+							st.Monitors = append(st.Monitors, fmt.Sprintf("C18 board_stays_readable: odd-line history %d (%s): GetMessages(%d) fails: %s", h, kind, off, truncate(err.Error(), 100)))
+							return
+						}
+						want := 0
+						for _, m := range sent {
+							if int(m.Offset) >= off {
+								want++
+							}
+						}
+						have := 0
+						for _, g := range part {
+							for _, m := range sent {
+								if g.ID == m.ID {
+									have++
+								}
+							}
+						}
+						if have != want {
+							st.Monitors = append(st.Monitors, fmt.Sprintf("C16 read_suffix: odd-line history %d (%s): GetMessages(%d) returns %d of the sent messages, %d stand at or after that position", h, kind, off, have, want))
+							return
+						}
+					}
+				}()
+			}
 		}
 		// a node's handle: the poller reads through the very handle the node's own requests send through (one FileStorage
 		// per node process: tick() calls GetMessages, StartDKG / ProposeSignMessages / executeOperation / SendMessage call Send),
